@@ -62,34 +62,133 @@ theorem quote_roundtrip_simple (cs : List Char) (h : ∀ c ∈ cs, Simple c) :
   rw [run_quoteInner cs h]
   rfl
 
-/-! ## expressions -/
+/-! ### the `\u{…}` escape -/
 
-/-- identifiers that the parser reads as identifier expressions -/
-def PlainIdent (n : String) : Prop :=
-  n ≠ "true" ∧ n ≠ "false" ∧ n ≠ "nil" ∧ reservedIdent n = false
+theorem hexChar_facts : ∀ d, d < 16 → hexChar d ≠ '}' ∧ hexVal (hexChar d) = some d := by decide
 
-/-- the sub-fragment for which the round trip is proved -/
-inductive RT : Expr → Prop where
-  | ident (n : String) (h : PlainIdent n) : RT (.ident n)
-  | int (l : String) : RT (.int false l)
-  | fix (l : String) : RT (.fix false l)
-  | bool (b : Bool) : RT (.bool b)
-  | nil : RT .nil
-  | void : RT .void
+/-- `strconv.FormatInt(n, 16)` writes at most `k` digits for `n < 16^k`, and they denote `n` -/
+theorem hexDigitsAux_spec : ∀ (fuel k n : Nat) (acc : List Char), 1 ≤ k → k ≤ fuel → n < 16 ^ k →
+    ∃ D : List Char, hexDigitsAux fuel n acc = D ++ acc ∧ 1 ≤ D.length ∧ D.length ≤ k ∧
+      (∀ c ∈ D, ∃ d, d < 16 ∧ c = hexChar d) ∧
+      (∀ a : Nat, D.foldl (fun v c => v * 16 + (hexVal c).getD 0) a = a * 16 ^ D.length + n) := by
+  intro fuel
+  induction fuel with
+  | zero => intro k n acc h1 h2; omega
+  | succ fuel ih =>
+    intro k n acc h1 h2 hn
+    rw [hexDigitsAux]
+    by_cases h16 : n < 16
+    · refine ⟨[hexChar (n % 16)], by simp [h16], by simp, by simpa using h1, ?_, ?_⟩
+      · intro c hc; exact ⟨n % 16, Nat.mod_lt _ (by omega), by simpa using hc⟩
+      · intro a
+        have := (hexChar_facts (n % 16) (Nat.mod_lt _ (by omega))).2
+        rw [Nat.mod_eq_of_lt h16] at this ⊢
+        simp [this]
+    · have hk : 2 ≤ k := by
+        rcases Nat.lt_or_ge k 2 with hk | hk
+        · have : k = 1 := by omega
+          subst this; simp at hn; omega
+        · exact hk
+      have hdiv : n / 16 < 16 ^ (k - 1) := by
+        have : 16 ^ k = 16 ^ (k - 1) * 16 := by rw [← Nat.pow_succ]; congr 1; omega
+        rw [this] at hn
+        exact Nat.div_lt_of_lt_mul (by rw [Nat.mul_comm]; exact hn)
+      obtain ⟨D', hD', hl1, hl2, hall, hval⟩ := ih (k - 1) (n / 16) (hexChar (n % 16) :: acc) (by omega) (by omega) hdiv
+      refine ⟨D' ++ [hexChar (n % 16)], by simp [h16, hD'], by simp, by simp; omega, ?_, ?_⟩
+      · intro c hc
+        rcases List.mem_append.1 hc with hc | hc
+        · exact hall c hc
+        · exact ⟨n % 16, Nat.mod_lt _ (by omega), by simpa using hc⟩
+      · intro a
+        have := (hexChar_facts (n % 16) (Nat.mod_lt _ (by omega))).2
+        rw [List.foldl_append, hval a]
+        simp only [List.foldl_cons, List.foldl_nil, this, Option.getD_some, List.length_append, List.length_cons,
+          List.length_nil, Nat.pow_succ]
+        have := Nat.div_add_mod n 16
+        rw [Nat.add_mul, Nat.mul_assoc]
+        omega
 
-instance (n : String) : Decidable (PlainIdent n) := by unfold PlainIdent; infer_instance
+theorem run_hexDigits : ∀ (D : List Char) (acc cnt : Nat) (out rest : List Char),
+    (∀ c ∈ D, ∃ d, d < 16 ∧ c = hexChar d) → cnt + D.length ≤ 8 →
+    run (.hex acc cnt) out (D ++ rest) =
+      run (.hex (D.foldl (fun v c => v * 16 + (hexVal c).getD 0) acc) (cnt + D.length)) out rest := by
+  intro D
+  induction D with
+  | nil => intro acc cnt out rest _ _; rfl
+  | cons c D ih =>
+    intro acc cnt out rest hall hlen
+    obtain ⟨d, hd, rfl⟩ := hall c (by simp)
+    obtain ⟨h1, h2⟩ := hexChar_facts d hd
+    have hc8 : cnt < 8 := by simp at hlen; omega
+    simp only [List.cons_append, run, step, h1, if_false, h2, hc8, if_true, List.foldl_cons, Option.getD_some]
+    rw [ih _ _ _ _ (fun c hc => hall c (by simp [hc])) (by simp at hlen ⊢; omega)]
+    simp only [List.length_cons]
+    congr 2; omega
 
-theorem rt_example : RT (.ident "x") := .ident "x" (by decide)
+theorem char_lt_pow (c : Char) : c.toNat < 16 ^ 6 := by
+  have := c.valid
+  simp only [UInt32.isValidChar, Nat.isValidChar] at this
+  show c.val.toNat < 16 ^ 6
+  omega
 
-theorem rt_roundtrip (e : Expr) (h : RT e) : parseAll (printE e) = some e := by
-  cases h with
-  | ident n hn =>
-    obtain ⟨h1, h2, h3, h4⟩ := hn
-    simp [printE, printExpr, mergeAmp, parseAll, parseExpr, nud, nudBody, loop, exprLbp, expect, h1, h2, h3, h4]
-  | int l => simp [printE, printExpr, mergeAmp, parseAll, parseExpr, nud, nudBody, loop, exprLbp, expect]
-  | fix l => simp [printE, printExpr, mergeAmp, parseAll, parseExpr, nud, nudBody, loop, exprLbp, expect]
-  | bool b => cases b <;> simp [printE, printExpr, mergeAmp, parseAll, parseExpr, nud, nudBody, loop, exprLbp, expect]
-  | nil => simp [printE, printExpr, mergeAmp, parseAll, parseExpr, nud, nudBody, loop, exprLbp, expect]
-  | void => decide
+theorem ofNatAux_toNat (c : Char) (h : Nat.isValidChar c.toNat) : Char.ofNatAux c.toNat h = c := by
+  have := Char.ofNat_toNat c
+  unfold Char.ofNat at this
+  simpa [h] using this
+
+theorem run_quoteChar_u (c : Char) (out rest : List Char) :
+    run .normal out (['\\', 'u', '{'] ++ hexDigits c.toNat ++ ['}'] ++ rest) = run .normal (c :: out) rest := by
+  obtain ⟨D, hD, hl1, hl2, hall, hval⟩ := hexDigitsAux_spec 16 6 c.toNat [] (by omega) (by omega) (char_lt_pow c)
+  have hD' : hexDigits c.toNat = D := by simpa [hexDigits] using hD
+  rw [hD']
+  simp only [List.cons_append, List.nil_append, List.append_assoc]
+  simp only [run, step, if_true]
+  simp only [show ('u' : Char) ≠ '0' by decide, show ('u' : Char) ≠ 'n' by decide, show ('u' : Char) ≠ 'r' by decide,
+    show ('u' : Char) ≠ 't' by decide, show ('u' : Char) ≠ '"' by decide, show ('u' : Char) ≠ '\'' by decide,
+    show ('u' : Char) ≠ '\\' by decide, if_false, if_true]
+  rw [run_hexDigits D 0 0 out _ hall (by omega), hval 0]
+  have hcnt : ¬ (0 + D.length = 0) := by omega
+  have hv : Nat.isValidChar (0 * 16 ^ D.length + c.toNat) := by
+    simp only [Nat.zero_mul, Nat.zero_add]; exact c.valid
+  simp only [run, step, if_true, hcnt, if_false, hv, dite_true]
+  congr 2
+  have : 0 * 16 ^ D.length + c.toNat = c.toNat := by simp
+  simp only [this]
+  exact ofNatAux_toNat c _
+
+theorem run_quoteChar_any (c : Char) (out rest : List Char) :
+    run .normal out (quoteChar c ++ rest) = run .normal (c :: out) rest := by
+  by_cases h : Simple c
+  · exact run_quoteChar c h out rest
+  · have hq : quoteChar c = ['\\', 'u', '{'] ++ hexDigits c.toNat ++ ['}'] := by
+      unfold quoteChar
+      unfold Simple at h
+      simp only [not_or] at h
+      obtain ⟨h1, h2, h3, h4, h5, h6, h7⟩ := h
+      simp only [h1, h2, h3, h4, h5, h6, h7, if_false]
+    rw [hq]
+    exact run_quoteChar_u c out rest
+
+theorem run_quoteInner_any (cs : List Char) (out : List Char) :
+    run .normal out (quoteInner cs) = some (out.reverse ++ cs) := by
+  induction cs generalizing out with
+  | nil => simp [quoteInner, run]
+  | cons c cs ih =>
+    simp only [quoteInner]
+    rw [run_quoteChar_any c, ih]
+    simp
+
+/-- un-escaping the quoted form of any string returns the string -/
+theorem quote_roundtrip (cs : List Char) : parseStringLiteral (quoteString cs) = some cs := by
+  have hrev : (quoteInner cs ++ ['"']).reverse = '"' :: (quoteInner cs).reverse := by simp
+  show (match (quoteInner cs ++ ['"']).reverse with
+        | '"' :: content => unescape content.reverse
+        | _ => none) = some cs
+  rw [hrev]
+  show unescape (quoteInner cs).reverse.reverse = some cs
+  rw [List.reverse_reverse]
+  unfold unescape
+  rw [run_quoteInner_any cs]
+  rfl
 
 end Verif.Proofs.Pratt
